@@ -340,7 +340,7 @@ def check_api(prop, tier, deadline):
         table = run_misc("setters", tier)
         for v in table["violations"]:
             rep.add("setter_table/" + v["sig"], "typed setter misbehaves for " + v["case"], {"engine": "misc", "mode": "setters", "tier": tier, "input": v["case"]}, v["count"])
-    per = max(deadline / max(1, len(API_CHECKS[prop])), 90 if tier == "quick" else 0)   # quick runs need 3-35 s each on an idle machine; the floor keeps them complete on a loaded one
+    per = max(deadline / max(1, len(API_CHECKS[prop])), 180 if tier == "quick" else 0)   # quick runs need 3-35 s each on an idle machine; the floor keeps them complete on a loaded one
     for flavour, alphabet, oracles, dq, dt in API_CHECKS[prop]:
         d = run_api(flavour, alphabet, oracles, dq if tier == "quick" else dt, tier, per)
         absorb_api(rep, d, {prop}, crash_prop=prop)
